@@ -773,7 +773,7 @@ class C16(World):
                             # swallowed inside the reader, which went on along another path: what the wrapper holds is not constrained
                             probe("abort_swallowed")
                             fault_fired("abort_in_load")
-                            m.update(loaded=None, failed_load=True, cached=False, last=None, alts=[])
+                            m.update(loaded=None, failed_load=True, cached=False, last=None, alts=[], unknown_old=True)
                             fault_in_force = "abort_in_load"
                             log.append([st.get("client", 0), op, "abort_swallowed"])
                             continue
@@ -798,7 +798,7 @@ class C16(World):
                             V("load_must_fail", f"{ch}|{flt}", step, f"load through {ch} succeeded although the file was {flt}")
                         if ch in ("dict", "from_json"):
                             model[w_i] = m = dict(loaded=None, keep=None, no_options=False, cached=False, last=None, ch=None, failed_load=False, exact=False)
-                        m.update(loaded=p, keep=keep, no_options=no_options, tweak=tweak, cached=False, ch=ch, failed_load=False, alts=[], exact=ch in ("dict", "model", "vu_dict", "from_json", "json", "json_vu"))
+                        m.update(loaded=p, keep=keep, no_options=no_options, tweak=tweak, cached=False, ch=ch, failed_load=False, unknown_old=False, alts=[], exact=ch in ("dict", "model", "vu_dict", "from_json", "json", "json_vu"))
                         if ch in FILE_CHANNELS and src is not None and not flt:
                             last_file.update(src=src, w=w_i, rec=dict(loaded=p, keep=keep, no_options=no_options, tweak=tweak, ch=ch, exact=ch in ("json", "json_vu")))
                         if m["last"] is not None:
@@ -834,7 +834,7 @@ class C16(World):
                                     d_["streams"].pop()
                                 if isinstance(d_.get("utilities"), list) and d_["utilities"]:
                                     d_["utilities"].pop(0)
-                                model[w0].update(loaded=None, failed_load=True, cached=False, last=None, alts=[])  # not judged until its next load
+                                model[w0].update(loaded=None, failed_load=True, cached=False, last=None, alts=[], unknown_old=True)  # not judged until its next load
                                 probe("caller_edited_the_loaded_dictionary")
                         w_i = st["w"] % n_w
                         if st.get("fresh_wrapper"):
@@ -846,7 +846,7 @@ class C16(World):
                             print("RELOAD", last_file, "w0 model", model[w0], file=__import__("sys").stderr)
                         probe("unchanged_file_loaded_again")
                         if kind == "ok":
-                            m.update(rec, cached=False, failed_load=False, alts=[])
+                            m.update(rec, cached=False, failed_load=False, unknown_old=False, alts=[])
                             outcome = "ok"
                         else:
                             tick("load_ok")
@@ -865,7 +865,7 @@ class C16(World):
                             # the wrapper holds now is not constrained - nothing is judged on it until the next successful load
                             probe("abort_swallowed")
                             fault_fired("abort")
-                            m.update(loaded=None, failed_load=True, cached=False, last=None, alts=[])
+                            m.update(loaded=None, failed_load=True, cached=False, last=None, alts=[], unknown_old=True)
                             log.append([st.get("client", 0), op, "abort_swallowed"])
                             continue
                         if tr.fired:
@@ -886,7 +886,7 @@ class C16(World):
                         if not (kind == "raise" and isinstance(val, RuntimeError)):
                             V("no_input", "target_before_load", step, f"target() before any load: {kind} {type(val).__name__}")
                         outcome = "raise:RuntimeError" if kind == "raise" else "ok?"
-                    elif m["loaded"] is None and m.get("alts") and kind == "ok":
+                    elif m["loaded"] is None and m.get("alts") and kind == "ok" and not m.get("unknown_old"):
                         judge_result(step, w_i, val, op)  # adopts the interrupted load that took effect, or reports
                         if m["loaded"] is not None:
                             m["cached"], m["last"], m["failed_load"] = True, val, False
@@ -953,7 +953,7 @@ class C16(World):
                         if tr.fired and kind != "abort" and not was_cached:
                             probe("abort_swallowed")
                             fault_fired("abort")
-                            m.update(loaded=None, failed_load=True, cached=False, last=None, alts=[])
+                            m.update(loaded=None, failed_load=True, cached=False, last=None, alts=[], unknown_old=True)
                             log.append([st.get("client", 0), op, "abort_swallowed"])
                             continue
                         if tr.fired:
